@@ -1,6 +1,15 @@
 import CssVerif.Lemmas.Tok
 import CssVerif.Lemmas.TokLex
 import CssVerif.Lemmas.TokDet
+import CssVerif.Lemmas.TokAppend
+import CssVerif.Lemmas.TokLex2Sep
+import CssVerif.Lemmas.TokStrItems
+import CssVerif.Lemmas.TokIdentU
+import CssVerif.Lemmas.TokURange
+import CssVerif.Lemmas.TokNum
+import CssVerif.Lemmas.TokFull
+import CssVerif.Lemmas.TokLex2Full
+import CssVerif.Lemmas.TokPush
 /-!
 # C05 — tokenizer: total, lossless, position-accurate, classifies by the grammar
 
@@ -274,8 +283,8 @@ reserved at-rules in any letter case (`@` + plain identifier; the type is `atTyp
 with the lower-cased spelling, else ATKEYWORD), the five match operators and CDO (fixed lexemes), the
 single-character tokens `,:;{}>[]`; `render` joins the lexemes with single spaces; `expected` is the list of
 (type, value) pairs with an S token between neighbours.
-Not yet covered by a theorem (classification oracle only): signed / fractional numbers, FUNCTION, STRING, URI,
-UNICODE-RANGE, COMMENT, CDC, identifiers that start with `-`, `u`, `U`, a non-ASCII code point or an escape. -/
+The other classes (FUNCTION, STRING, URI, UNICODE-RANGE, COMMENT, CDC, fractional numbers, identifiers that start with
+`-`, `u`, `U`) are covered by `Lex2` / `lexeme_separation_all` below. -/
 
 /-- **T5.6 (classes NUMBER, PERCENTAGE, DIMENSION, HASH, IDENT, ATKEYWORD incl. the reserved at-rules, match
 operators, CDO, single-character tokens)**: a text produced from such tokens separated by single spaces is recovered
@@ -346,6 +355,444 @@ example : (tokenize [97, 98, 32, 123, 32, 49, 50, 32, 125] false true).tokens.ma
 example : expected [Lex.pct 53 [48], .dim 49 [] 112 [120], .hash 102 [48, 48]] =
     [("PERCENTAGE", [53, 48, 37]), ("S", [32]), ("DIMENSION", [49, 112, 120]), ("S", [32]),
      ("HASH", [35, 102, 48, 48])] := by decide
+
+/-! ## T5.6 for the remaining classes: S, CDC, COMMENT, STRING, INVALID, FUNCTION, URI, UNICODE-RANGE
+
+`Lex2` (Lemmas/TokLex2Sep.lean) adds to `Lex`: STRING (quote `"` or `'`, a body without backslash, line break or the
+delimiter — the other quote may occur —, the same quote; `strI`: ANY body made of string items, with escapes and line
+continuations, value = `stringValue`), IDENT with one or two leading hyphens or starting with `u` / `U`, NUMBER with sign and fraction (`numF`),
+UNICODE-RANGE intervals, URI in quoted form (`uriQ`: `url(` white
+space? string white space? `)`, value = `stringValue`), FUNCTION (plain identifier other than `and` in any letter
+case, `(`), URI (`url(` in any letter case, an unquoted body of printable ASCII other than quotes, `)`, backslash and
+white space, `)`), UNICODE-RANGE (`U+`/`u+`, one to six hex digits or `?`), COMMENT (`/*`, any body in which no `*/` ends,
+`*/`) and CDC. `render2` joins the lexemes with single spaces; `expectedAll` lists (type, value) with an S token between
+neighbours; a COMMENT token is not yielded when comments are off. S (any run of white space) and INVALID (which a
+space does not end) have class theorems of their own.
+Still on the classification oracle only: names with escapes or non-ASCII code points,
+unquoted URLs with escapes. -/
+
+/-- **T5.6 for all token classes** (plain lexemes): a text produced from grammar tokens of the classes NUMBER,
+PERCENTAGE, DIMENSION, HASH, IDENT, ATKEYWORD incl. the reserved at-rules, the match operators, CDO, CDC, the
+single-character tokens, STRING, FUNCTION, URI, UNICODE-RANGE and COMMENT, separated by single spaces, is recovered
+with exactly those token types and values and an S token between neighbours; with comments off the COMMENT tokens are
+left out and nothing else changes. -/
+theorem lexeme_separation_all (doC : Bool) (ts : List Lex2) (h : ∀ t ∈ ts, t.WF)
+    (hcs : hasAt (render2 ts) charsetStart = false) :
+    (tokenize (render2 ts) false doC).tokens.map proj =
+      (expectedAll ts).filter (fun p => doC || p.1 != "COMMENT") :=
+  tokenize_lexemes2 doC ts h hcs
+
+/-- **T5.6 in full-sheet mode**: the same tokens, followed by the end marker — on a rendered list of well-formed
+lexemes no completion happens (`full_sheet_completion`: the partial-sheet run contains no INVALID token, no FUNCTION
+that normalises to `url(`, no CHAR `/`). -/
+theorem lexeme_separation_all_fullsheet (doC : Bool) (ts : List Lex2) (h : ∀ t ∈ ts, t.WF)
+    (hcs : hasAt (render2 ts) charsetStart = false) :
+    (tokenize (render2 ts) true doC).tokens.map proj =
+      (expectedAll ts).filter (fun p => doC || p.1 != "COMMENT") ++ [("EOF", [])] :=
+  tokenize_lexemes2_full doC ts h hcs
+
+/-- IDENT that starts with one or two hyphens (`-moz-x`, `--var`), followed by the end of the text or a space -/
+theorem ident_dash_class (doC : Bool) (n : Nat) (hn : n = 1 ∨ n = 2) (c : Nat) (cs stop : Cps)
+    (hc : inR nameStart c = true) (hcs : ∀ x ∈ cs, inR identRest x = true) (hs : Sep stop) :
+    scan false doC (dashes n ++ (c :: cs ++ stop)) productions = .hit "IDENT" (n + (c :: cs).length) :=
+  scan_ident_dash doC n hn c cs stop hc hcs hs
+
+/-- FUNCTION with one or two leading hyphens (`-moz-calc(`), whatever follows -/
+theorem function_dash_class (doC : Bool) (n : Nat) (hn : n = 1 ∨ n = 2) (c : Nat) (cs rest : Cps)
+    (hc : inR nameStart c = true) (hcs : ∀ x ∈ cs, inR identRest x = true) :
+    scan false doC (dashes n ++ (c :: cs ++ 40 :: rest)) productions =
+      .hit "FUNCTION" (n + (c :: cs).length + 1) :=
+  scan_function_dash doC n hn c cs rest hc hcs
+
+example : (tokenize [45, 109, 111, 122, 45, 99, 40, 49, 41] false true).tokens.map proj =
+    [("FUNCTION", [45, 109, 111, 122, 45, 99, 40]), ("NUMBER", [49]), ("CHAR", [41])] := by decide +kernel
+
+/-- IDENT that starts with `u` / `U` (`underline`, `url` without parenthesis), followed by the end of the text or a
+space: URI and UNICODE-RANGE, which start with the same letter, do not match -/
+theorem ident_u_class (doC : Bool) (u : Nat) (hu : IsU u) (cs stop : Cps) (hcs : ∀ x ∈ cs, inR identRest x = true)
+    (hs : Sep stop) : scan false doC (u :: cs ++ stop) productions = .hit "IDENT" (u :: cs).length :=
+  scan_ident_u doC u hu cs stop hcs hs
+
+/-- **a pattern consumes only code points of its classes**: when all classes of `r` are positive and lie inside the
+ranges `cs`, every success of `r` covers code points of `cs` only (so a number match cannot reach into what follows
+the number: `numRe_ms_le`) -/
+theorem pattern_consumes_its_classes (cs : List (Nat × Nat)) (r : Re) (h : consumesIn cs r = true) (s : Cps) (l : Nat)
+    (hl : l ∈ r.ms s) : ∀ x ∈ s.take l, inR cs x = true :=
+  consumesIn_sound cs r h s l hl
+
+/-- numbers with sign and fraction, at the level of the number pattern (`{num}` = `reNUMBER`): an optional sign,
+digits (possibly none), `.`, at least one digit is matched exactly when no digit follows.
+(`number_fraction_class` is the scan-level class theorem; `number_signed_class` the one for signed integers,
+`percentage_signed_class` / `dimension_signed_class` the PERCENTAGE / DIMENSION analogues.) -/
+theorem number_fraction_first (sg ip : Cps) (d : Nat) (ds stop : Cps) (hsg : IsSign sg)
+    (hip : ∀ c ∈ ip, isDigit c = true) (hd : ∀ c ∈ d :: ds, isDigit c = true)
+    (hs : HeadIn (fun c => isDigit c = false) stop) :
+    reNUMBER.first (sg ++ (ip ++ 46 :: d :: (ds ++ stop))) = some (sg.length + (ip.length + (1 + (1 + ds.length)))) :=
+  numRe_first_frac sg ip d ds stop hsg hip hd hs
+
+/-- **NUMBER class, fraction form**: optional sign, digits (possibly none), `.`, at least one digit, followed by the
+end of the text or a space, is scanned as one NUMBER token: IDENT and FUNCTION (which may start with `-`), DIMENSION
+and PERCENTAGE do not match -/
+theorem number_fraction_class (doC : Bool) (sg ip : Cps) (d : Nat) (ds stop : Cps) (hsg : IsSign sg)
+    (hip : ∀ c ∈ ip, isDigit c = true) (hd : ∀ c ∈ d :: ds, isDigit c = true) (hs : Sep stop) :
+    scan false doC (sg ++ (ip ++ 46 :: d :: (ds ++ stop))) productions =
+      .hit "NUMBER" (sg.length + (ip.length + (1 + (1 + ds.length)))) :=
+  scan_number_frac doC sg ip d ds stop hsg hip hd hs
+
+/-- **NUMBER class, signed integer**: optional sign and digits, followed by the end of the text or a space -/
+theorem number_signed_class (doC : Bool) (sg : Cps) (d : Nat) (ds stop : Cps) (hsg : IsSign sg)
+    (hd : ∀ c ∈ d :: ds, isDigit c = true) (hs : Sep stop) :
+    scan false doC (sg ++ (d :: ds ++ stop)) productions = .hit "NUMBER" (sg.length + (d :: ds).length) :=
+  scan_number_int doC sg d ds stop hsg hd hs
+
+/-- **PERCENTAGE class with sign and fraction**: a number (optional sign; integer, or digits `.` digits) and `%`,
+whatever follows -/
+theorem percentage_signed_class (doC : Bool) (sg : Cps) (b : NumBody) (rest : Cps) (hsg : IsSign sg) (hb : b.WF) :
+    scan false doC (sg ++ (b.text ++ 37 :: rest)) productions =
+      .hit "PERCENTAGE" (sg.length + b.text.length + 1) :=
+  scan_percentage_gen doC sg b rest hsg hb
+
+/-- **DIMENSION class with sign and fraction**: such a number and a plain identifier as unit, followed by the end of
+the text or a space -/
+theorem dimension_signed_class (doC : Bool) (sg : Cps) (b : NumBody) (c : Nat) (cs stop : Cps) (hsg : IsSign sg)
+    (hb : b.WF) (hc : inR identStart c = true) (hcs : ∀ x ∈ cs, inR identRest x = true) (hst : Sep stop) :
+    scan false doC (sg ++ (b.text ++ (c :: cs ++ stop))) productions =
+      .hit "DIMENSION" (sg.length + b.text.length + (c :: cs).length) :=
+  scan_dimension_gen doC sg b c cs stop hsg hb hc hcs hst
+
+example : (NumBody.frac [49] 53 []).WF ∧ (NumBody.int 49 [48]).WF ∧ (NumBody.frac [] 53 []).text = [46, 53] := by
+  decide
+
+/-- `-12.50 ` and `.5` -/
+example : reNUMBER.first ([45] ++ ([49, 50] ++ 46 :: 53 :: ([48] ++ [32]))) = some 6 ∧
+    reNUMBER.first ([] ++ ([] ++ 46 :: 53 :: ([] ++ []))) = some 2 := by decide
+example : IsSign [45] ∧ IsSign [] := ⟨Or.inr (Or.inr rfl), Or.inl rfl⟩
+
+/-- S: a run of white space (tab, CR, LF, FF, space) up to the end of the text or a code point that is not white
+space -/
+theorem s_class (doC : Bool) (c : Nat) (cs next : Cps) (hc : isWsC c = true) (hcs : ∀ x ∈ cs, isWsC x = true)
+    (hn : HeadIn (fun x => isWsC x = false) next) :
+    scan false doC (c :: cs ++ next) productions = .hit "S" (c :: cs).length :=
+  scan_ws doC c cs next hc hcs hn
+
+/-- CDC, whatever follows (IDENT, FUNCTION and the number productions, which may start with `-`, do not match) -/
+theorem cdc_class (doC : Bool) (rest : Cps) : scan false doC ([45, 45, 62] ++ rest) productions = .hit "CDC" 3 :=
+  scan_cdc doC rest
+
+/-- **the COMMENT production is exactly a one-pass scanner, for every text**: `/\*[^*]*\*+([^/*][^*]*\*+)*/` matches at
+the start of `s` iff `s` starts with `/*` and a `*/` follows, and then the match ends with the FIRST such `*/`
+(`commentLen`, `firstClose`: defined without regular expressions). -/
+theorem comment_is_scanner (s : Cps) : reCOMMENT.first s = commentLen s := comment_first s
+
+/-- … and it is deterministic: the successes of the production's tail after `/*` (all positions a backtracking matcher
+can reach) are at most one -/
+theorem comment_deterministic (u : Cps) : cR.ms u = (cScan false u).toList := (comment_scan u).1
+
+theorem firstClose_nil : firstClose [] = none := rfl
+theorem firstClose_step (c : Nat) (t : Cps) :
+    firstClose (c :: t) = if c = 42 ∧ t.head? = some 47 then some 0 else (firstClose t).map (1 + ·) :=
+  firstClose_cons c t
+
+/-- **COMMENT class**: `/*`, a body in which no `*/` ends (the body followed by `*` contains no `*/`), then `*/` is
+scanned as one COMMENT token, whatever follows -/
+theorem comment_class (doC : Bool) (body rest : Cps) (hb : firstClose (body ++ [42]) = none) :
+    scan false doC (47 :: 42 :: body ++ 42 :: 47 :: rest) productions = .hit "COMMENT" (body.length + 4) :=
+  scan_comment_general doC body rest hb
+
+/-- the hypothesis holds for bodies without `*`, for `**`, for `/* /`; it fails for `*/x` -/
+example : firstClose ([97, 32] ++ [42]) = none ∧ firstClose ([42, 42] ++ [42]) = none ∧
+    firstClose ([47, 42, 32, 47] ++ [42]) = none ∧ firstClose ([42, 47, 120] ++ [42]) = some 0 := by decide
+
+/-- **STRING class, every body**: a quote, a body made of string items — `SItem` (Lemmas/TokStrItems.lean): an ordinary
+code point (not a line break, backslash or the delimiter; the other quote and non-ASCII code points are ordinary), a
+backslash with a code point that is not a line break (escaped quote, escaped backslash, the first digit of a hex
+escape, …), a backslash with a line break LF / FF / CR / CR LF (line continuation), a backslash with one to six hex
+digits and a line break — these are all the alternatives of the production's item — and the same quote is scanned as
+one STRING token covering exactly that, whatever follows. (Its value is `stringValue` of it: `string_values`.) -/
+theorem string_class (doC : Bool) (q : Nat) (hq : q = 34 ∨ q = 39) (its : List SItem) (h : ∀ i ∈ its, i.WF q)
+    (rest : Cps) :
+    scan false doC (q :: flat its ++ q :: rest) productions = .hit "STRING" ((flat its).length + 2) :=
+  scan_string_items doC q hq its h rest
+
+/-- the string body of the production matches greedily exactly the items (first success of the backtracking matcher) -/
+theorem string_body_greedy (q : Nat) (hq : q = 34 ∨ q = 39) (its : List SItem) (h : ∀ i ∈ its, i.WF q) (rest : Cps) :
+    (strBody q).first (flat its ++ q :: rest) = some (flat its).length :=
+  strBody_first_items q hq its h rest
+
+/-- the special case of a body without backslash -/
+theorem string_class_plain (doC : Bool) (q : Nat) (hq : q = 34 ∨ q = 39) (body rest : Cps)
+    (hb : ∀ x ∈ body, ordinary q x = true) :
+    scan false doC (q :: body ++ q :: rest) productions = .hit "STRING" (body.length + 2) :=
+  scan_string_plain doC q hq body rest hb
+
+/-- the hypotheses are satisfiable: `"a\"\41 b\<CR><LF>c\9<LF>'"` -/
+example : ∀ i ∈ [SItem.ord 97, .esc 34, .esc 52, .ord 49, .ord 32, .ord 98, .cont 3, .ord 99, .hexnl 57 [] 0, .ord 39],
+    i.WF 34 := by decide
+example : flat [SItem.ord 97, .esc 34, .esc 52, .ord 49, .cont 3, .hexnl 57 [] 0] =
+    [97, 92, 34, 92, 52, 49, 92, 13, 10, 92, 57, 10] := by decide
+example : (tokenize [34, 97, 92, 34, 92, 52, 49, 92, 13, 10, 92, 57, 10, 34] false true).tokens.map proj =
+    [("STRING", [34, 97, 92, 34, 0x41, 9, 34])] := by decide +kernel
+
+/-- INVALID: an unterminated string (body without backslash) up to the end of the text or a line break; STRING does
+not match there -/
+theorem invalid_class_partial (doC : Bool) (q : Nat) (hq : q = 34 ∨ q = 39) (body stop : Cps)
+    (hb : ∀ x ∈ body, ordinary q x = true) (hs : InvStop stop) :
+    scan false doC (q :: body ++ stop) productions = .hit "INVALID" (body.length + 1) :=
+  scan_invalid_plain doC q hq body stop hb hs
+
+/-- FUNCTION: a plain identifier other than `and` directly followed by `(`, whatever follows: IDENT matches first
+and is skipped, FUNCTION takes over -/
+theorem function_class (doC : Bool) (c : Nat) (cs rest : Cps) (hc : inR identStart c = true)
+    (hcs : ∀ x ∈ cs, inR identRest x = true) (hand : pyLower (c :: cs) ≠ andWord) :
+    scan false doC (c :: cs ++ 40 :: rest) productions = .hit "FUNCTION" ((c :: cs).length + 1) :=
+  scan_function doC c cs rest hc hcs hand
+
+/-- wherever IDENT matches and `(` follows, FUNCTION matches the identifier and the parenthesis — for every text -/
+theorem function_takes_over (s : Cps) (l : Nat) (h : reIDENT.first s = some l) (h40 : s[l]? = some 40) :
+    reFUNCTION.first s = some (l + 1) :=
+  function_after_ident s l h h40
+
+/-- URI, unquoted with a plain body, whatever follows -/
+theorem uri_class_partial (doC : Bool) (u r l : Nat) (hu : IsU u) (hr : IsR r) (hl : IsL l) (body rest : Cps)
+    (hb : ∀ x ∈ body, inR uriPlain x = true) :
+    scan false doC (u :: r :: l :: 40 :: (body ++ 41 :: rest)) productions = .hit "URI" (body.length + 5) :=
+  scan_uri_plain doC u r l hu hr hl body rest hb
+
+/-- URI, quoted: `url(` in any letter case, optional white space, a string (any items, either quote), optional white
+space, `)`, whatever follows (value: `stringValue` of all of it, `string_values`) -/
+theorem uri_quoted_class (doC : Bool) (u r l : Nat) (hu : IsU u) (hr : IsR r) (hl : IsL l) (w1 w2 : Cps) (q : Nat)
+    (hq : q = 34 ∨ q = 39) (its : List SItem) (hw1 : ∀ x ∈ w1, isWsC x = true) (hw2 : ∀ x ∈ w2, isWsC x = true)
+    (h : ∀ i ∈ its, i.WF q) (rest : Cps) :
+    scan false doC (u :: r :: l :: 40 :: (w1 ++ (q :: (flat its ++ q :: (w2 ++ 41 :: rest))))) productions =
+      .hit "URI" (4 + (w1.length + (((flat its).length + 2) + (w2.length + 1)))) :=
+  scan_uri_quoted doC u r l hu hr hl w1 w2 q hq its hw1 hw2 h rest
+
+/-- UNICODE-RANGE (single range) followed by the end of the text or a space; URI does not match there -/
+theorem unicode_range_class_partial (doC : Bool) (u h : Nat) (hs stop : Cps) (hu : IsU u)
+    (hh : ∀ x ∈ h :: hs, inR hexq x = true) (hlen : (h :: hs).length ≤ 6) (hst : Sep stop) :
+    scan false doC (u :: 43 :: (h :: hs ++ stop)) productions = .hit "UNICODE-RANGE" ((h :: hs).length + 2) :=
+  scan_urange doC u h hs stop hu hh hlen hst
+
+/-- UNICODE-RANGE interval `U+0-7F`, followed by the end of the text or a space -/
+theorem unicode_range_interval_class (doC : Bool) (u h : Nat) (hs : Cps) (h2 : Nat) (hs2 stop : Cps) (hu : IsU u)
+    (hh : ∀ x ∈ h :: hs, inR hexq x = true) (hlen : (h :: hs).length ≤ 6)
+    (hh2 : ∀ x ∈ h2 :: hs2, inR hexOnly x = true) (hlen2 : (h2 :: hs2).length ≤ 6) (hst : Sep stop) :
+    scan false doC (u :: 43 :: (h :: hs ++ 45 :: (h2 :: hs2 ++ stop))) productions =
+      .hit "UNICODE-RANGE" ((h :: hs).length + 2 + (1 + (h2 :: hs2).length)) :=
+  scan_urange_interval doC u h hs h2 hs2 stop hu hh hlen hh2 hlen2 hst
+
+/-- the hypotheses are satisfiable: `"a'b" f( url(x.png) U+2?? /* c */ --> ab` -/
+example : ∀ t ∈ [Lex2.str 34 [97, 39, 98], .fn 102 [], .uri 117 114 108 [120, 46, 112, 110, 103],
+    .urange 85 50 [63, 63], .cmt [32, 99, 32], .cdc, .old (.ident 97 [98])], t.WF := by
+  intro t ht
+  simp only [List.mem_cons, List.mem_nil_iff, or_false] at ht
+  rcases ht with rfl | rfl | rfl | rfl | rfl | rfl | rfl <;> simp only [Lex2.WF, Lex.WF, IsU, IsR, IsL] <;> decide
+
+example : render2 [Lex2.str 34 [97], .cmt [99], .cdc] = [34, 97, 34, 32, 47, 42, 99, 42, 47, 32, 45, 45, 62] := by
+  decide
+
+/-- with comments off the COMMENT token is left out and the S tokens on both sides stay -/
+example : (expectedAll [Lex2.str 34 [97], .cmt [99], .cdc]).filter (fun p => false || p.1 != "COMMENT") =
+    [("STRING", [34, 97, 34]), ("S", [32]), ("S", [32]), ("CDC", [45, 45, 62])] := by decide
+
+example : (tokenize [34, 97, 34, 32, 47, 42, 99, 42, 47, 32, 45, 45, 62] false false).tokens.map proj =
+    [("STRING", [34, 97, 34]), ("S", [32]), ("S", [32]), ("CDC", [45, 45, 62])] := by decide +kernel
+
+/-- `and(` is not a FUNCTION: IDENT `and`, then `(` -/
+example : (tokenize [65, 110, 68, 40] false true).tokens.map proj = [("IDENT", [65, 110, 68]), ("CHAR", [40])] := by
+  decide +kernel
+
+example : InvStop [10, 97] ∧ InvStop [] := ⟨Or.inr ⟨10, [97], rfl, by decide⟩, Or.inl rfl⟩
+
+/-! ## T5.7 locality: a match never depends on what follows its end; append and cut
+
+`tokensAt doC s line col` = the items of the loop on the text fragment `s` in partial-sheet mode, started at
+`line`/`col` (`tokenize_is_tokensAt`: this is `tokenize` for a text that starts neither with the BOM production nor with
+`@charset `); `endAt doC s line col` = how that run stops (`endAt_regular`: always `.done line' col'`). -/
+
+/-- **locality of the regular expressions**: for a pattern without `$`, the successes on `s ++ b` that end inside `s`
+are exactly the successes on `s`, in the same (backtracking) order -/
+theorem re_locality (r : Re) (h : eolFree r = true) (s b : Cps) :
+    (r.ms (s ++ b)).filter (fun l => decide (l ≤ s.length)) = r.ms s :=
+  ms_local r h s b
+
+/-- … and no generated production contains `$` -/
+theorem productions_local : ∀ p ∈ productions, eolFree p.2 = true := productions_eolFree
+
+theorem tokenize_is_tokensAt (doC : Bool) (s : Cps) (hb : bomRe.first s = none)
+    (hc : hasAt s charsetStart = false) : (tokenize s false doC).items = tokensAt doC s 1 1 :=
+  tokenize_plain doC s hb hc
+
+theorem endAt_regular (doC : Bool) (s : Cps) (line col : Nat) : ∃ l' c', endAt doC s line col = .done l' c' :=
+  endAt_done doC s line col
+
+/-- **T5.7 tokenize_append**: when a token boundary of `a ++ b` falls at `|a|` (the items split into `pre ++ post`
+with `pre` covering exactly `a`), then `pre` is the tokenization of `a` alone and `post` is the tokenization of `b`
+started at the line and column where the run on `a` stopped — for every text, not only for rendered lexemes. -/
+theorem tokenize_append (doC : Bool) (a b : Cps) (line col : Nat) (pre post : List Item)
+    (h : tokensAt doC (a ++ b) line col = pre ++ post) (hs : spans pre = a) :
+    tokensAt doC a line col = pre ∧
+    ∃ line' col', endAt doC a line col = .done line' col' ∧ post = tokensAt doC b line' col' :=
+  tokensAt_append_aux doC a b line col pre post h hs
+
+/-- the same as an equation: tokens of `a ++ b` = tokens of `a` ++ tokens of `b`, positions continued -/
+theorem tokenize_append_eq (doC : Bool) (a b : Cps) (line col : Nat)
+    (h : ∃ pre post, tokensAt doC (a ++ b) line col = pre ++ post ∧ spans pre = a) :
+    ∃ line' col', endAt doC a line col = .done line' col' ∧
+      tokensAt doC (a ++ b) line col = tokensAt doC a line col ++ tokensAt doC b line' col' := by
+  obtain ⟨pre, post, h1, h2⟩ := h
+  obtain ⟨ha, l', c', he, hp⟩ := tokenize_append doC a b line col pre post h1 h2
+  exact ⟨l', c', he, by rw [h1, ha, hp]⟩
+
+/-- where the run on `a` stops is the position of the code point after `a` (lines by LF) -/
+theorem tokenize_append_position (doC : Bool) (a before : Cps) (line col l' c' : Nat) (h : (line, col) = lc before)
+    (hd : endAt doC a line col = .done l' c') : (l', c') = lc (before ++ a) :=
+  endAt_pos doC a before line col l' c' h hd
+
+/-- **T5.7 tokenize_cut** (truncation): cut the text `a₁ ++ a₂ ++ b` after `a₁ ++ a₂`, where `|a₁|` is a token
+boundary of the whole text. The tokens before that boundary are kept exactly (types, values, positions); the rest of
+the cut text, `a₂`, is tokenized from the same line and column as `a₂ ++ b` was. So a cut changes nothing before the
+last token boundary that precedes it. -/
+theorem tokenize_cut (doC : Bool) (a₁ a₂ b : Cps) (line col : Nat) (pre post : List Item)
+    (h : tokensAt doC (a₁ ++ a₂ ++ b) line col = pre ++ post) (hs : spans pre = a₁) :
+    ∃ line' col', tokensAt doC (a₁ ++ a₂) line col = pre ++ tokensAt doC a₂ line' col' ∧
+      post = tokensAt doC (a₂ ++ b) line' col' :=
+  tokensAt_cut doC a₁ a₂ b line col pre post h hs
+
+/-- **a rendered lexeme list followed by a space is a closed prefix** (the syntactic sufficient condition for the
+boundary of `tokenize_append`): append a space and ANY text `b` to a non-empty list of well-formed lexemes — the tokens
+are the lexemes' tokens (`pre`: types and values `expectedAll ts`, source text `render2 ts`), and then the tokens of
+` b` from the position reached; nothing in `b` can reach back into the lexemes. -/
+theorem lexemes_then_anything (doC : Bool) (ts : List Lex2) (hne : ts ≠ []) (h : ∀ t ∈ ts, t.WF) (b : Cps)
+    (line col : Nat) :
+    ∃ pre line' col', tokensAt doC (render2 ts ++ 32 :: b) line col = pre ++ tokensAt doC (32 :: b) line' col' ∧
+      pre.map proj = expectedAll ts ∧ spans pre = render2 ts := by
+  obtain ⟨pre, l', c', h1, h2, h3, _⟩ :=
+    tokensAt_lexemes_tail doC ts hne h (32 :: b) (Or.inr ⟨b, rfl⟩) line col
+  exact ⟨pre, l', c', h1, h2, h3⟩
+
+/-- for instance an unterminated comment or string after the space does not swallow the lexemes before it -/
+example : (tokensAt true ([97, 32] ++ [47, 42, 32, 120]) 1 1).map proj =
+    [("IDENT", [97]), ("S", [32]), ("CHAR", [47]), ("CHAR", [42]), ("S", [32]), ("IDENT", [120])] := by decide +kernel
+
+/-- the hypothesis is satisfiable: `a ` + `b` -/
+example : tokensAt true ([97, 32] ++ [98]) 1 1 =
+    [⟨"IDENT", [97], 1, 1, [97], [97], true⟩, ⟨"S", [32], 1, 2, [32], [32], true⟩] ++
+      [⟨"IDENT", [98], 1, 3, [98], [98], true⟩] ∧
+    spans [⟨"IDENT", [97], 1, 1, [97], [97], true⟩, (⟨"S", [32], 1, 2, [32], [32], true⟩ : Item)] = [97, 32] := by
+  constructor
+  · decide +kernel
+  · decide
+
+/-- … and it is needed: `a` + `b` is one IDENT `ab`, `url(` + `x)` one URI, `/*` + `*/` one COMMENT -/
+example : (tokensAt true ([97] ++ [98]) 1 1).map proj = [("IDENT", [97, 98])] ∧
+    (tokensAt true ([117, 114, 108, 40] ++ [120, 41]) 1 1).map proj = [("URI", [117, 114, 108, 40, 120, 41])] ∧
+    (tokensAt true [117, 114, 108, 40] 1 1).map proj = [("FUNCTION", [117, 114, 108, 40])] ∧
+    (tokensAt true ([47, 42] ++ [42, 47]) 1 1).map proj = [("COMMENT", [47, 42, 42, 47])] := by
+  refine ⟨by decide +kernel, by decide +kernel, by decide +kernel, by decide +kernel⟩
+
+/-! ## T5.8 full-sheet completion, for every class
+
+`Completion doC it x` (Lemmas/TokFull.lean) = `it` is a completed token and `x` is the token that partial-sheet mode
+yields at the same place: a STRING whose `found` is its source span plus the opening quote (`x`: the INVALID token with
+the same span); a URI whose `found` is what the URI production matches on span + the first of `')`, `")`, `)` that makes
+it match — more than the span (`x`: the FUNCTION token `url(`, in any spelling that normalises to `url(`); a COMMENT
+(comments on) whose `found` is its span + `*/` (`x`: the CHAR `/`). -/
+
+/-- **T5.8 completion**: for EVERY text the tokens of full-sheet mode (between BOM token and end marker) are those of
+partial-sheet mode — same types, values, positions — or they are a common prefix followed by ONE completed token
+(STRING / URI / COMMENT) whose source span is all the text that partial-sheet mode tokenizes from there on (`x :: rest`):
+an unterminated construct is completed at the end of the input and nowhere else, and nothing before it changes. With
+`eof_once` (exactly one end marker follows) and `values` (the value is the decoding of span + completion). -/
+theorem full_sheet_completion (text : Cps) (doC : Bool) :
+    body text true doC = body text false doC ∨
+    ∃ pre it x rest, body text true doC = pre ++ [it] ∧ body text false doC = pre ++ x :: rest ∧
+      it.span = spans (x :: rest) ∧ Completion doC it x :=
+  body_full text doC
+
+/-- the three kinds of completion occur: `"ab` → STRING `"ab"`; `url(x` → URI `url(x)`, `url('x` → URI `url('x')`;
+`/* c` → COMMENT `/* c*/` (and `/* c` with comments off is not completed: `/`, `*`, S, IDENT) -/
+example : (tokenize [34, 97, 98] true true).tokens.map proj = [("STRING", [34, 97, 98, 34]), ("EOF", [])] ∧
+    (tokenize [34, 97, 98] false true).tokens.map proj = [("INVALID", [34, 97, 98])] := by
+  refine ⟨by decide +kernel, by decide +kernel⟩
+example : (tokenize [117, 114, 108, 40, 120] true true).tokens.map proj =
+      [("URI", [117, 114, 108, 40, 120, 41]), ("EOF", [])] ∧
+    (tokenize [117, 114, 108, 40, 39, 120] true true).tokens.map proj =
+      [("URI", [117, 114, 108, 40, 39, 120, 39, 41]), ("EOF", [])] ∧
+    (tokenize [117, 114, 108, 40, 120] false true).tokens.map proj =
+      [("FUNCTION", [117, 114, 108, 40]), ("IDENT", [120])] := by
+  refine ⟨by decide +kernel, by decide +kernel, by decide +kernel⟩
+example : (tokenize [47, 42, 32, 99] true true).tokens.map proj = [("COMMENT", [47, 42, 32, 99, 42, 47]), ("EOF", [])] ∧
+    (tokenize [47, 42, 32, 99] true false).tokens.map proj =
+      [("CHAR", [47]), ("CHAR", [42]), ("S", [32]), ("IDENT", [99]), ("EOF", [])] := by
+  refine ⟨by decide +kernel, by decide +kernel⟩
+/-- a construct that is not the last thing in the text is not completed: `"ab` LF `c` -/
+example : (tokenize [34, 97, 98, 10, 99] true true).tokens.map proj =
+    [("INVALID", [34, 97, 98]), ("S", [10]), ("IDENT", [99]), ("EOF", [])] := by decide +kernel
+
+/-! ## T5.9 the generator with `push` (`self._pushed`)
+
+Model: `Model/TokPush.lean` — the generator `tokenize` as a program (`program text full doC`: plain yields for BOM,
+CHARSET_SYM, EOF; one event per loop iteration: drain `self._pushed`, then yield the token unless it is a filtered
+comment), a consumer script of `next` / `push ts` actions, `runP st acts` = the outputs of the `next` calls
+(`.text` token of the text, `.pushed` token handed in by `push`, `.stop`), `endP st acts` = the state after the script.
+`remaining st` = text tokens still to come, `pending st` = pushed tokens not yet yielded. -/
+
+/-- without `push` the generator yields exactly the tokens of the pure run -/
+theorem program_is_tokenize (text : Cps) (full doC : Bool) :
+    emitted (program text full doC) = (tokenize text full doC).tokens :=
+  program_emitted text full doC
+
+/-- **T5.9 push-back never disturbs the tokens of the text**: for every consumer script — whatever is pushed and
+whenever — the text tokens that come out are, in order, an initial part of the tokens of the pure run; the rest is
+what the generator still holds. Nothing of the text is lost, repeated or reordered. -/
+theorem pushed_never_disturbs_text (text : Cps) (full doC : Bool) (acts : List Act) :
+    (tokenize text full doC).tokens =
+      (runP (initP text full doC) acts).filterMap Out.text? ++ remaining (endP (initP text full doC) acts) := by
+  rw [← program_emitted]
+  exact run_text acts (initP text full doC)
+
+/-- **T5.9 pushed tokens are conserved**: what was pushed (in script order) is, up to order, what has been yielded
+plus what the tokenizer still holds; so no pushed token is yielded twice and none is invented. -/
+theorem pushed_conserved (st : PSt) (acts : List Act) :
+    ((runP st acts).filterMap Out.pushed? ++ pending (endP st acts)).Perm (pushedBy acts ++ pending st) :=
+  run_pushed acts st
+
+/-- a script without `push`, on a fresh tokenizer, yields no pushed token -/
+theorem no_push_no_pushed (text : Cps) (full doC : Bool) (n : Nat) :
+    (runP (initP text full doC) (List.replicate n Act.next)).filterMap Out.pushed? = [] :=
+  run_no_push (initP text full doC) rfl n
+
+/-- **what is pushed after the last loop iteration is never yielded** (it stays in `self._pushed`): `yield from
+self._pushed` runs at the start of a loop iteration only, so a token handed back after the last token of the text (or
+after EOF) does not come again. Not part of C05's statement (which is about `tokenize` with an empty push-back list);
+recorded because the consumer `prodparser.py:593/:631` pushes tokens back expecting to see them again. -/
+theorem push_after_last_iteration_is_lost (st : PSt) (h : NoIter st) (acts : List Act) :
+    (runP st acts).filterMap Out.pushed? = [] :=
+  run_noIter acts st h
+
+/-- example: text `a b` (IDENT S IDENT); push X after the first token: X comes before S; push Y after the last
+token: Y never comes -/
+example :
+    let X : Item := ⟨"PUSHED", [1], 0, 0, [], [], true⟩
+    let Y : Item := ⟨"PUSHED", [2], 0, 0, [], [], true⟩
+    (runP (initP [97, 32, 98] true true) [.next, .push [X], .next, .next, .next, .push [Y], .next, .next]).map
+        (fun o => match o with
+          | .text it => it.typ
+          | .pushed it => "pushed:" ++ it.typ
+          | .stop => "stop") =
+      ["IDENT", "pushed:PUSHED", "S", "IDENT", "EOF", "stop"] := by decide +kernel
+
+/-- a token pushed while `yield from` is draining is seen by a LATER iteration only (the running one holds the old
+iterator object): push X, Y; after X comes out push Z; Y comes next, then the text token, then Z -/
+example :
+    let T (n : Nat) : Item := ⟨"PUSHED", [n], 0, 0, [], [], true⟩
+    (runP (initP [97, 32, 98] false true) [.next, .push [T 1, T 2], .next, .push [T 3], .next, .next, .next, .next]).map
+        (fun o => match o with
+          | .text it => it.typ
+          | .pushed it => "P" ++ toString (it.value.headD 0)
+          | .stop => "stop") =
+      ["IDENT", "P1", "P2", "S", "P3", "IDENT"] := by decide +kernel
 
 /-! ## the string productions are matched in one way only (fix ad43c3b)
 
